@@ -129,7 +129,9 @@ class LoopyCall(AbstractResultWithNamedArrays):
 
     @override
     def __hash__(self) -> int:
-        return hash((self.translation_unit, tuple(self.bindings.items()),
+        # (equality compares the bindings as a mapping: the hash must not
+        # depend on their order of insertion)
+        return hash((self.translation_unit, frozenset(self.bindings.items()),
                      self.entrypoint, self.tags))
 
     @override
